@@ -10,6 +10,9 @@ import Driver.Bucket
              | multi:<expr>:<expr> | ovl:<expr>:<expr> | strip:<expr>   (matcher as in Driver.Bucket)
       ops  : ';'-separated. reads on the composite: g:<hex> s:<hex> w:<hex>;
              writes on base i: p:<i>:<hex>:<content> d:<i>:<hex> D:<i>:<hex>;
+             T:<i>:<hex path>:<hex temp base name|->:<content> = atomic Put + Write on base i, writer
+             left OPEN (on a disk base the temp file is an object of the directory until the close);
+             R:<i>:<hex path>:<hex temp>:<content> = Close of that writer (rename / publish);
              C:<j> = copy everything readable through the composite into base j
              (storage.Copy, Tar→Untar and Zip→Unzip all have this net effect)
     output: results joined by ';' then for every base '|' + its sorted dump.
@@ -91,6 +94,20 @@ def stepOp (e : BExpr) (st : DState) (op : String) : DState × String :=
         (match baseDeleteAll isDisk d (s2l p) with
           | .ok d' => (st.setB n d', "ok") | .error er => (st, errS er))
       | _, _ => (st, "bad-op")
+  | ["T", i, h, t, c] => match i.toNat?, hexDecode h, hexDecode t with
+      | some n, some p, some tn =>
+        let (isDisk, d) := st.getB n
+        let tmp : Option Comp := if tn = "" then none else some (s2l tn)
+        (match baseBeginAtomic isDisk d (s2l p) tmp (if c = "-" then "" else c) with
+          | .ok d' => (st.setB n d', "ok") | .error er => (st, errS er))
+      | _, _, _ => (st, "bad-op")
+  | ["R", i, h, t, c] => match i.toNat?, hexDecode h, hexDecode t with
+      | some n, some p, some tn =>
+        let (isDisk, d) := st.getB n
+        let tmp : Option Comp := if tn = "" then none else some (s2l tn)
+        (match baseCommitAtomic isDisk d (s2l p) tmp (if c = "-" then "" else c) with
+          | (d', none) => (st.setB n d', "ok") | (d', some er) => (st.setB n d', errS er))
+      | _, _, _ => (st, "bad-op")
   | ["C", j] => match j.toNat? with
       | some n =>
         -- Copy, Tar→Untar and Zip→Unzip meet the first error at different moments (Copy lists all
